@@ -38,7 +38,7 @@ class Latch {
    **/
   void count_down(uint32_t n = 1) noexcept {
     DISPENSO_VERIF_POINT("LtCdSub", this);
-    if (impl_.intrusiveStatus().fetch_sub(n, std::memory_order_acq_rel) == 1) {
+    if (impl_.intrusiveStatus().fetch_sub(n, std::memory_order_acq_rel) == static_cast<int>(n)) {
       impl_.notify(0);
     }
   }
